@@ -21,7 +21,8 @@ Step ==
             IF e.r[1] = 2 THEN AllocFail(sz, al, n) /\ Acc                         \* bad_alloc: always allowed
             ELSE IF e.r[1] # 1 THEN Rej(e, "exception") /\ UNCHANGED heap
             ELSE LET p == Sub(e.r, 2, 8)  usable == Sub(e.r, 10, 8) IN
-                 IF ~Representable(n, sz) THEN Rej(e, "overflow-not-reported") /\ heap' = [heap EXCEPT !.live = @ \cup {[base |-> Norm(p), size |-> <<>>, align |-> al]}]
+                 IF IsZero(p) /\ Representable(n, sz) /\ IsZero(Bytes(n, sz)) THEN Acc /\ UNCHANGED heap     \* allocate(0) may return a null pointer: it addresses 0 bytes
+                 ELSE IF ~Representable(n, sz) THEN Rej(e, "overflow-not-reported") /\ heap' = [heap EXCEPT !.live = @ \cup {[base |-> Norm(p), size |-> <<>>, align |-> al]}]
                  ELSE IF ENABLED AllocOKWith(sz, al, n, p, usable) THEN AllocOKWith(sz, al, n, p, usable) /\ Acc
                  ELSE Rej(e, IF ~AlignedTo(p, al) THEN "misaligned" ELSE IF ~BLe(Bytes(n, sz), usable) THEN "too-small" ELSE "overlap")
                       /\ heap' = [heap EXCEPT !.live = @ \cup {[base |-> Norm(p), size |-> <<>>, align |-> al]}]
